@@ -950,3 +950,270 @@ Qed.
 Theorem maximal_committed_index_spec : forall gc inc out p,
   maximal_committed_index gc inc out p = joint_committed_index gc inc out (acked_of p).
 Proof. reflexivity. Qed.
+
+(* ------------------------------------------------------------------ *)
+(** * Group commit *)
+
+(* closed form of the loop: with e = the effective checked group (the quorum
+   element's group, or if that is 0 the first non-zero group met), the loop returns
+   at the first element whose group is non-zero and differs from e. *)
+Definition nzb (m : Index) : bool := negb (snd m =? 0).
+Definition differs (c : N) (m : Index) : bool := nzb m && negb (snd m =? c).
+Definition eff (c : N) (L : list Index) : N :=
+  if c =? 0 then match find nzb L with Some f => snd f | None => 0 end else c.
+
+Lemma gc_loop_char : forall L qci lst c s,
+  gc_loop qci lst c s L =
+  match find (differs (eff c L)) L with
+  | Some m => (N.min (fst m) qci, true)
+  | None => if s && forallb nzb L then (qci, false) else (lst, false)
+  end.
+Proof.
+  induction L as [|m t IH]; intros qci lst c s.
+  - cbn. destruct s; reflexivity.
+  - cbn [gc_loop]. destruct (snd m =? 0) eqn:E0.
+    + assert (Hn : nzb m = false) by (unfold nzb; rewrite E0; reflexivity).
+      assert (He : eff c (m :: t) = eff c t).
+      { unfold eff. cbn [find]. rewrite Hn. reflexivity. }
+      assert (Hd : differs (eff c t) m = false) by (unfold differs; rewrite Hn; reflexivity).
+      rewrite IH, He. cbn [find forallb]. rewrite Hd, Hn. cbn [andb].
+      rewrite andb_false_r. reflexivity.
+    + assert (Hn : nzb m = true) by (unfold nzb; rewrite E0; reflexivity).
+      destruct (c =? 0) eqn:Ec.
+      * assert (He : eff c (m :: t) = snd m).
+        { unfold eff. rewrite Ec. cbn [find]. rewrite Hn. reflexivity. }
+        assert (He' : eff (snd m) t = snd m).
+        { unfold eff. rewrite E0. reflexivity. }
+        rewrite IH, He, He'. cbn [find forallb].
+        assert (Hd : differs (snd m) m = false).
+        { unfold differs. rewrite N.eqb_refl. apply andb_false_r. }
+        rewrite Hd, Hn. cbn [andb]. reflexivity.
+      * assert (He : forall L', eff c L' = c).
+        { intros L'. unfold eff. rewrite Ec. reflexivity. }
+        rewrite He. destruct (c =? snd m) eqn:Ecm.
+        -- rewrite IH, He. cbn [find forallb].
+           assert (Hd : differs c m = false).
+           { unfold differs. rewrite N.eqb_sym, Ecm. apply andb_false_r. }
+           rewrite Hd, Hn. cbn [andb]. reflexivity.
+        -- cbn [find].
+           assert (Hd : differs c m = true).
+           { unfold differs. rewrite Hn, N.eqb_sym, Ecm. reflexivity. }
+           rewrite Hd. reflexivity.
+Qed.
+
+Lemma committed_index_gc : forall V a, V <> [] ->
+  committed_index true V a =
+  let L := matched_of a V in
+  let q := quorum_elem a V in
+  match find (differs (eff (snd q) L)) L with
+  | Some m => (N.min (fst m) (fst q), true)
+  | None => if forallb nzb L then (fst q, false)
+            else (fst (last L index_default), false)
+  end.
+Proof.
+  intros V a HV. unfold committed_index, quorum_elem.
+  destruct V as [|v V']; [congruence|].
+  cbn [negb]. fold (matched_of a (v :: V')). rewrite matched_of_length.
+  rewrite gc_loop_char. reflexivity.
+Qed.
+
+Lemma quorum_elem_in_matched : forall V a, V <> [] ->
+  In (quorum_elem a V) (matched_of a V).
+Proof.
+  intros V a HV. unfold quorum_elem. apply nth_In.
+  rewrite matched_of_length. apply majority_pos_lt, length_pos, HV.
+Qed.
+
+(* the group-commit result never exceeds the plain quorum index, whatever the
+   group assignment (group 0 and missing voters included) *)
+Theorem gc_le_plain : forall V a,
+  fst (committed_index true V a) <= fst (committed_index false V a).
+Proof.
+  intros V a. destruct V as [|v V0]; [cbn; lia|].
+  assert (HV : v :: V0 <> []) by discriminate.
+  rewrite (committed_index_gc _ a HV), (committed_index_plain _ a HV). cbn zeta.
+  destruct (find _ _) as [m|]; [cbn [fst]; lia|].
+  destruct (forallb _ _); cbn [fst]; [lia|].
+  apply desc_last_le; [apply matched_of_desc|apply quorum_elem_in_matched, HV].
+Qed.
+
+Theorem joint_gc_le_plain : forall inc out a,
+  fst (joint_committed_index true inc out a) <=
+  fst (joint_committed_index false inc out a).
+Proof.
+  intros inc out a. rewrite !joint_committed_index_min. cbn [fst].
+  pose proof (gc_le_plain inc a). pose proof (gc_le_plain out a). lia.
+Qed.
+
+(* in a descending list the first element satisfying p has the largest index among
+   those satisfying p *)
+Lemma find_desc_max : forall (p : Index -> bool) L, desc L -> forall f,
+  find p L = Some f -> forall x, In x L -> p x = true -> fst x <= fst f.
+Proof.
+  intros p L H. induction H as [|y L HL IH Hy]; intros f Hf x Hx Hp; [destruct Hx|].
+  rewrite Forall_forall in Hy. cbn [find] in Hf. destruct (p y) eqn:Epy.
+  - injection Hf as <-. destruct Hx as [->|Hx]; [lia|]. exact (Hy x Hx).
+  - destruct Hx as [->|Hx]; [congruence|]. exact (IH f Hf x Hx Hp).
+Qed.
+
+(* "voters with index >= i span two distinct (non-zero) groups" *)
+Definition two_groups (a : acked_t) (V : list N) (i : N) : Prop :=
+  exists u v, In u V /\ In v V /\
+    grp_of a u <> 0 /\ grp_of a v <> 0 /\ grp_of a u <> grp_of a v /\
+    i <= idx_of a u /\ i <= idx_of a v.
+
+Lemma nzb_true : forall m, nzb m = true <-> snd m <> 0.
+Proof. intros m. unfold nzb. rewrite negb_true_iff, N.eqb_neq. tauto. Qed.
+
+Lemma differs_true : forall c m, differs c m = true <-> snd m <> 0 /\ snd m <> c.
+Proof.
+  intros c m. unfold differs. rewrite andb_true_iff, nzb_true, negb_true_iff, N.eqb_neq.
+  tauto.
+Qed.
+
+(* the effective checked group is the non-zero group of some element p of L that is
+   at least as large as min(first differing element, quorum element) *)
+Lemma eff_partner : forall a V, V <> [] ->
+  let L := matched_of a V in
+  let q := quorum_elem a V in
+  (exists x, In x L /\ snd x <> 0) ->
+  exists p, In p L /\ snd p = eff (snd q) L /\ snd p <> 0 /\
+            (forall x, In x L -> snd x <> 0 -> N.min (fst x) (fst q) <= fst p).
+Proof.
+  intros a V HV L q [x0 [Hx0 Hx0nz]]. unfold eff. destruct (snd q =? 0) eqn:Eq.
+  - destruct (find nzb L) as [f|] eqn:Ef.
+    + destruct (find_some _ _ Ef) as [Hf Hfn]. apply nzb_true in Hfn.
+      exists f. repeat split; try assumption.
+      intros x Hx Hxn.
+      pose proof (find_desc_max nzb L (matched_of_desc a V) f Ef x Hx) as Hle.
+      rewrite nzb_true in Hle. specialize (Hle Hxn). lia.
+    + exfalso. pose proof (find_none _ _ Ef x0 Hx0) as Hn.
+      apply nzb_true in Hx0nz. congruence.
+  - apply N.eqb_neq in Eq. exists q. repeat split.
+    + apply quorum_elem_in_matched, HV.
+    + exact Eq.
+    + intros x _ _. lia.
+Qed.
+
+(* (A) two distinct non-zero groups occur among the voters: the flag is true and the
+   result is the largest index i <= plain quorum index such that the voters with
+   index >= i span two distinct groups, i.e. min(plain, largest index replicated
+   into two groups). *)
+Theorem gc_two_groups : forall V a, V <> [] -> two_groups a V 0 ->
+  let r := fst (committed_index true V a) in
+  let plain := fst (committed_index false V a) in
+  snd (committed_index true V a) = true /\
+  r <= plain /\ two_groups a V r /\
+  (forall i, i <= plain -> two_groups a V i -> i <= r).
+Proof.
+  intros V a HV H2. cbn zeta.
+  pose proof (gc_le_plain V a) as Hle.
+  rewrite (committed_index_plain _ a HV) in *. cbn [fst] in *.
+  rewrite (committed_index_gc _ a HV) in *. cbn zeta in *.
+  set (L := matched_of a V) in *. set (q := quorum_elem a V) in *.
+  destruct H2 as [u [v [Hu [Hv [Gu [Gv [Guv _]]]]]]].
+  assert (Hmu : In (acked_or_default a u) L) by (apply matched_of_In; eauto).
+  assert (Hmv : In (acked_or_default a v) L) by (apply matched_of_In; eauto).
+  destruct (eff_partner a V HV) as [p [Hp [Ep [Pnz Pge]]]].
+  { exists (acked_or_default a u). split; [exact Hmu|exact Gu]. }
+  fold L in Hp, Ep, Pge. fold q in Ep, Pge.
+  destruct (find (differs (eff (snd q) L)) L) as [m|] eqn:Ef.
+  - destruct (find_some _ _ Ef) as [Hm Hmd]. apply differs_true in Hmd.
+    destruct Hmd as [Mnz Mne]. cbn [fst snd] in *.
+    split; [reflexivity|]. split; [exact Hle|]. split.
+    + (* witnesses: m and the partner p *)
+      apply matched_of_In in Hm. destruct Hm as [vm [Hvm Em]].
+      pose proof Hp as Hp'. apply matched_of_In in Hp'. destruct Hp' as [vp [Hvp Epp]].
+      exists vm, vp. unfold grp_of, idx_of. rewrite <- Em, <- Epp.
+      repeat split; try assumption.
+      * rewrite Ep. exact Mne.
+      * lia.
+      * apply Pge; [|exact Mnz]. apply matched_of_In. eauto.
+    + intros i Hi [u' [v' [Hu' [Hv' [Gu' [Gv' [Guv' [Iu Iv]]]]]]]].
+      assert (Hd : exists w, In w V /\ i <= idx_of a w /\
+                             differs (eff (snd q) L) (acked_or_default a w) = true).
+      { destruct (N.eq_dec (grp_of a u') (eff (snd q) L)) as [E|E].
+        - exists v'. repeat split; try assumption. apply differs_true.
+          split; [exact Gv'|]. unfold grp_of in *. congruence.
+        - exists u'. repeat split; try assumption. apply differs_true.
+          split; [exact Gu'|exact E]. }
+      destruct Hd as [w [Hw [Iw Dw]]].
+      assert (Hmw : In (acked_or_default a w) L) by (apply matched_of_In; eauto).
+      pose proof (find_desc_max _ L (matched_of_desc a V) m Ef _ Hmw Dw) as Hwm.
+      unfold idx_of in Iw. lia.
+  - exfalso.
+    pose proof (find_none _ _ Ef _ Hmu) as Du. pose proof (find_none _ _ Ef _ Hmv) as Dv.
+    assert (Hu' : ~ (snd (acked_or_default a u) <> 0 /\
+                     snd (acked_or_default a u) <> eff (snd q) L)).
+    { rewrite <- differs_true. congruence. }
+    assert (Hv' : ~ (snd (acked_or_default a v) <> 0 /\
+                     snd (acked_or_default a v) <> eff (snd q) L)).
+    { rewrite <- differs_true. congruence. }
+    unfold grp_of in *.
+    destruct (N.eq_dec (snd (acked_or_default a u)) (eff (snd q) L)) as [E1|E1];
+    destruct (N.eq_dec (snd (acked_or_default a v)) (eff (snd q) L)) as [E2|E2];
+      try tauto. congruence.
+Qed.
+
+(* (B) every voter has a non-zero group and they are all the same group: the plain
+   quorum index, flag false *)
+Theorem gc_single_group : forall V a, V <> [] ->
+  (forall v, In v V -> grp_of a v <> 0) ->
+  (forall u v, In u V -> In v V -> grp_of a u = grp_of a v) ->
+  committed_index true V a = (fst (committed_index false V a), false).
+Proof.
+  intros V a HV Hnz Hsame.
+  rewrite (committed_index_plain _ a HV). cbn [fst].
+  rewrite (committed_index_gc _ a HV). cbn zeta.
+  set (L := matched_of a V). set (q := quorum_elem a V).
+  destruct (quorum_elem_In V a HV) as [vq [Hvq Eq]]. fold q in Eq.
+  assert (Hqnz : snd q <> 0) by (rewrite Eq; apply (Hnz vq Hvq)).
+  assert (He : eff (snd q) L = snd q).
+  { unfold eff. apply N.eqb_neq in Hqnz. rewrite Hqnz. reflexivity. }
+  rewrite He.
+  destruct (find (differs (snd q)) L) as [m|] eqn:Ef.
+  - exfalso. destruct (find_some _ _ Ef) as [Hm Hmd]. apply differs_true in Hmd.
+    apply matched_of_In in Hm. destruct Hm as [vm [Hvm Em]].
+    destruct Hmd as [_ Hne]. apply Hne. rewrite Em, Eq. apply (Hsame vm vq Hvm Hvq).
+  - assert (Hall : forallb nzb L = true).
+    { apply forallb_forall. intros x Hx. apply matched_of_In in Hx.
+      destruct Hx as [vx [Hvx ->]]. apply nzb_true. apply (Hnz vx Hvx). }
+    rewrite Hall. reflexivity.
+Qed.
+
+(* (C) some voter has no group (group 0 or no entry) and the grouped voters do not
+   span two groups: the smallest acknowledged index, flag false *)
+Theorem gc_zero_group : forall V a, V <> [] ->
+  (exists v, In v V /\ grp_of a v = 0) ->
+  (forall u v, In u V -> In v V -> grp_of a u <> 0 -> grp_of a v <> 0 ->
+               grp_of a u = grp_of a v) ->
+  let r := fst (committed_index true V a) in
+  snd (committed_index true V a) = false /\
+  (forall v, In v V -> r <= idx_of a v) /\ (exists v, In v V /\ r = idx_of a v).
+Proof.
+  intros V a HV [v0 [Hv0 G0]] Hsame. cbn zeta.
+  rewrite (committed_index_gc _ a HV). cbn zeta.
+  set (L := matched_of a V). set (q := quorum_elem a V).
+  assert (Hm0 : In (acked_or_default a v0) L) by (apply matched_of_In; eauto).
+  destruct (find (differs (eff (snd q) L)) L) as [m|] eqn:Ef.
+  - exfalso. destruct (find_some _ _ Ef) as [Hm Hmd]. apply differs_true in Hmd.
+    destruct Hmd as [Mnz Mne].
+    destruct (eff_partner a V HV) as [p [Hp [Ep [Pnz _]]]].
+    { exists m. split; assumption. }
+    fold L in Hp, Ep. fold q in Ep.
+    apply matched_of_In in Hm. destruct Hm as [vm [Hvm Em]].
+    apply matched_of_In in Hp. destruct Hp as [vp [Hvp Epp]].
+    apply Mne. rewrite <- Ep. rewrite Em, Epp.
+    apply (Hsame vm vp Hvm Hvp); unfold grp_of; congruence.
+  - assert (Hall : forallb nzb L = false).
+    { destruct (forallb nzb L) eqn:E; [|reflexivity].
+      rewrite forallb_forall in E. specialize (E _ Hm0). apply nzb_true in E.
+      unfold grp_of in G0. congruence. }
+    rewrite Hall. cbn [fst snd]. split; [reflexivity|]. split.
+    + intros v Hv. apply desc_last_le; [apply matched_of_desc|].
+      apply matched_of_In. eauto.
+    + assert (Hl : In (last L index_default) L).
+      { apply last_In. intros E. rewrite E in Hm0. destruct Hm0. }
+      apply matched_of_In in Hl. destruct Hl as [v [Hv E]]. exists v.
+      split; [exact Hv|]. unfold idx_of. rewrite E. reflexivity.
+Qed.
